@@ -250,7 +250,12 @@ func c10Check(cs c10Case, files []world.FileSpec, c *report.Collector, l *report
 	}
 	form := cs.desc[strings.Index(cs.desc, ":")+1:]
 	rep := func(clause string, items []string) {
-		c.Add(&report.Violation{Clause: clause, Site: attr + ":" + form + "@" + cs.context, Check: "c10", SchemaID: ent.ID, Files: []report.FileSpec{{Path: "/p0", Name: "main.tf", Text: cs.text}},
+		site := attr + ":" + form + "@" + cs.context
+		if clause == "origins:missing" && allInsideUnknownCall(cs.text, items) {
+			// one situation, wherever it is written
+			site = "arguments-of-unknown-function"
+		}
+		c.Add(&report.Violation{Clause: clause, Site: site, Check: "c10", SchemaID: ent.ID, Files: []report.FileSpec{{Path: "/p0", Name: "main.tf", Text: cs.text}},
 			Detail: fmt.Sprintf("attribute %s (%s) in context %s: %s %v; written references the constraint admits: %v\nfile:\n%s", attr, form, cs.context, clause, items, cs.exp, cs.text)})
 	}
 	if len(missing) > 0 {
@@ -358,4 +363,52 @@ func C10(tier string) int {
 		Assumptions:  []string{"for-expression iterator variables are written traversals and are expected as origins (the repository's tests expect them too)", "object constraint: only values of schema-known keys; map/object keys only when parenthesised (statement silent, library's choice encoded)"},
 		BiteCounters: []string{"comparisons", "expected_origins", "origins_checked"},
 	})
+}
+
+// allInsideUnknownCall tells whether every item ("addr@start-end") lies between the parentheses of a
+// call of the generator's unknown function.
+func allInsideUnknownCall(text string, items []string) bool {
+	var spans [][2]int
+	for off := 0; ; {
+		i := strings.Index(text[off:], "nosuchfn(")
+		if i < 0 {
+			break
+		}
+		start := off + i + len("nosuchfn(")
+		depth, end := 1, start
+		for end < len(text) && depth > 0 {
+			switch text[end] {
+			case '(':
+				depth++
+			case ')':
+				depth--
+			}
+			end++
+		}
+		spans = append(spans, [2]int{start, end})
+		off = start
+	}
+	if len(spans) == 0 || len(items) == 0 {
+		return false
+	}
+	for _, it := range items {
+		var a, b int
+		at := strings.LastIndex(it, "@")
+		if at < 0 {
+			return false
+		}
+		if _, err := fmt.Sscanf(it[at+1:], "%d-%d", &a, &b); err != nil {
+			return false
+		}
+		in := false
+		for _, sp := range spans {
+			if a >= sp[0] && b <= sp[1] {
+				in = true
+			}
+		}
+		if !in {
+			return false
+		}
+	}
+	return true
 }
